@@ -292,6 +292,46 @@ pub fn drive(e: &mut Emu, s: Slice, rng: &mut crate::prng::Rng) -> Result<usize,
     }
 }
 
+/// Like `drive` for `Count` / `Break` slices, but a host that carries on after `emulate_frames`
+/// returned an error (e.g. a tape that cannot be read): the deck is stopped and the remaining frames
+/// are requested again. Returns (frames completed, errors seen).
+pub fn drive_tolerant(e: &mut Emu, s: Slice) -> Result<(usize, usize), String> {
+    let (n, nth) = match s {
+        Slice::Count(n) => (n, None),
+        Slice::Break(nth, n) => (n, Some(nth)),
+        Slice::Max(n, _) => (n, None),
+    };
+    match nth {
+        Some(0) => set_break_mode(e, BreakMode::Always),
+        Some(k) => set_break_mode(e, BreakMode::EveryNth(k)),
+        None => set_break_mode(e, BreakMode::Never),
+    }
+    let mut done = 0usize;
+    let mut errors = 0usize;
+    let mut guard = 0u64;
+    while done < n {
+        guard += 1;
+        if guard > 100_000_000 || errors > 1000 {
+            return Err("no progress".into());
+        }
+        e.set_speed(EmulationMode::FrameCount(if nth.is_some() { 1 } else { n - done }));
+        match e.emulate_frames(LONG) {
+            Ok(i) => match i.stop_reason {
+                EmulationStopReason::Completed => done += if nth.is_some() { 1 } else { n - done },
+                EmulationStopReason::Breakpoint => done += e.verif_passed_frames(),
+                EmulationStopReason::Timeout => return Err("unexpected timeout".into()),
+            },
+            Err(_) => {
+                errors += 1;
+                done += e.verif_passed_frames();
+                e.stop_tape();
+            }
+        }
+    }
+    set_break_mode(e, BreakMode::Never);
+    Ok((done, errors))
+}
+
 /// Calls the ROM tape block routine LD-BYTES (0x0556) the way `CALL 0x0556` from RAM would:
 /// A = expected flag byte, carry = LOAD (set) / VERIFY (clear), IX = destination, DE = length;
 /// `ret` is pushed on the stack at `sp`. Runs until the routine returns to `ret` (true) or
